@@ -183,6 +183,28 @@ fn with_conformance2(mut rep: Report, modes: &[(bool, bool)], direct: &[&str]) -
     rep
 }
 
+/// the property's own real-daemon batch (props_e2::extra_conformance) with its direct clauses
+fn with_daemon_batch(mut rep: Report, args: &Args, direct: &[&str]) -> Report {
+    let scns = crate::props_e2::extra_conformance(&args.id, args.tier);
+    if scns.is_empty() {
+        return rep;
+    }
+    let c = crate::props_e2::run_conformance(scns);
+    for d in c.divergences {
+        rep.machinery_errors.push(format!("MODEL-DIVERGENCE: the real daemon loop and the E1 loop model disagree: {}", d));
+    }
+    if c.incomplete > 0 {
+        rep.machinery_errors.push(format!("{} real-daemon schedules were cut by the step horizon", c.incomplete));
+    }
+    rep.violations.extend(c.violations.into_iter().filter(|v| direct.contains(&v.clause.as_str())));
+    if let Some(o) = rep.coverage.as_object_mut() {
+        let prev = o.get("traces_validated_against_impl").and_then(|x| x.as_u64()).unwrap_or(0);
+        o.insert("traces_validated_against_impl".into(), json!(prev + c.agreed));
+        o.insert("daemon_batch".into(), json!({"per_scenario": c.per, "real_loop_steps_replayed": c.steps, "direct_clauses": direct}));
+    }
+    rep
+}
+
 const GEN: [&str; 5] = ["panic", "codec", "deadlock", "livelock", "spin"];
 
 fn mode_grid(tier: Tier) -> Vec<(bool, bool)> {
@@ -408,7 +430,7 @@ pub fn c03(args: &Args) -> Report {
     let res = run_all(scns, mk, args.tier);
     let mut rep = fold(res, &GEN, 0, json!({}));
     rep.assumptions.push("fault handlers at their default (cancel) or Abandon; Ignore/Suspend overrides and user suspension are excluded by the property".into());
-    with_conformance(rep, &[(true, false), (false, false), (false, true)])
+    with_conformance2(rep, &[(true, false), (false, false), (false, true)], &["transaction-never-ends"])
 }
 
 pub fn c04(args: &Args) -> Report {
@@ -681,8 +703,19 @@ pub fn c10(args: &Args) -> Report {
             scns.push(b);
         }
     }
+    // two losses in acknowledged mode: something of the file is still missing at the receiver
+    // when the cancel is issued, and the EOF (cancel) itself is lost once
+    for by in [Side::S, Side::R] {
+        let mut l = Scenario::base(&format!("c10 ack size=17 cancel@{:?} F=2 d", by));
+        l.file_size = Some(17);
+        l.max_count = 3;
+        l.user = vec![(by, UserOp::Cancel, 1)];
+        l.faults = 2;
+        l.k_drop = true;
+        scns.push(l);
+    }
     let res = run_all(scns, mk, args.tier);
-    with_conformance(fold(res, &GEN, 0, json!({})), &[(true, false), (false, false), (false, true)])
+    with_daemon_batch(with_conformance(fold(res, &GEN, 0, json!({})), &[(true, false), (false, false), (false, true)]), args, &["cancel-not-propagated", "transaction-never-ends"])
 }
 
 pub fn c19(args: &Args) -> Report {
@@ -727,7 +760,7 @@ pub fn c19(args: &Args) -> Report {
     s.k_drop = true;
     scns.push(s);
     let res = run_all(scns, mk, args.tier);
-    with_conformance(fold(res, &["panic", "codec", "livelock", "spin"], 0, json!({})), &[(true, false), (false, false)])
+    with_daemon_batch(with_conformance(fold(res, &["panic", "codec", "livelock", "spin"], 0, json!({})), &[(true, false), (false, false)]), args, &["transmitted-while-suspended", "transfer-not-completed-after-resume", "transaction-never-ends"])
 }
 
 fn nak_alphabet(size: u64, seg: u64, tier: Tier) -> Vec<InjectSpec> {
@@ -814,7 +847,8 @@ pub fn c07(args: &Args) -> Report {
     c.k_drop = true;
     scns.push(c);
     let res = run_all(scns, mk, args.tier);
-    with_conformance2(fold(res, &["panic", "codec"], 0, json!({})), &[(true, false), (false, false)], &["metadata-size-wrong", "eof-size-wrong"])
+    let rep = with_conformance2(fold(res, &["panic", "codec"], 0, json!({})), &[(true, false), (false, false)], &["metadata-size-wrong", "eof-size-wrong", "metadata-fields-wrong", "filedata-exceeds-segment-size"]);
+    with_daemon_batch(rep, args, &["filedata-exceeds-segment-size", "metadata-size-wrong", "eof-size-wrong"])
 }
 
 pub fn c08(args: &Args) -> Report {
@@ -1021,7 +1055,7 @@ pub fn c17(args: &Args) -> Report {
     let mut rep = fold(res, &["panic", "codec"], 0, json!({}));
     // the timer component itself, against its integer reference
     crate::seq_counter::run(&mut rep, args.tier);
-    with_conformance(rep, &[(true, false), (false, true)])
+    with_daemon_batch(with_conformance2(rep, &[(true, false), (false, true)], &["retransmission-early"]), args, &["retransmission-early"])
 }
 
 pub fn c13_e1(tier: Tier) -> Vec<ExploreResult> {
@@ -1108,7 +1142,7 @@ pub fn c13(args: &Args) -> Report {
     rep.violations.extend(d.violations);
     rep.machinery_errors.extend(d.machinery_errors);
     rep.assumptions.extend(d.assumptions);
-    let mut rep = with_conformance(rep, &[(true, false)]);
+    let mut rep = with_conformance2(rep, &[(true, false), (false, true)], &["metadata-fields-wrong"]);
     // every dispatcher transition was executed on the real NativeFileStore as well
     if let Some(o) = rep.coverage.as_object_mut() {
         let v = o["traces_validated_against_impl"].as_u64().unwrap_or(0) + dt;
